@@ -648,6 +648,22 @@ func directedCfgCases() []struct {
 	add("F5c-domain-128x2-octets", func(c *cfgCase) { c.conf.Domain = strings.Repeat("\u00e9", 128) })
 	add("F5c-domain-127x2+1-octets-ok", func(c *cfgCase) { c.conf.Domain = strings.Repeat("\u00e9", 127) + "x" })
 	add("F5c-lease-200-years", func(c *cfgCase) { c.conf.LeaseDuration = "1753164h" })
+	// networks of every unusual size, with and without a range
+	for _, nb := range []struct {
+		net string
+		own net.IP
+	}{{"192.168.1.2/31", net.IPv4(192, 168, 1, 2).To4()}, {"192.168.1.2/31", net.IPv4(192, 168, 1, 3).To4()}, {"192.168.1.2/32", net.IPv4(192, 168, 1, 2).To4()},
+		{"192.168.1.0/30", net.IPv4(192, 168, 1, 2).To4()}, {"192.0.0.0/8", net.IPv4(192, 168, 1, 2).To4()}, {"128.0.0.0/1", net.IPv4(192, 168, 1, 2).To4()},
+		{"0.0.0.0/0", net.IPv4(192, 168, 1, 2).To4()}} {
+		nb := nb
+		add("net-size-"+nb.net+"-own-"+nb.own.String(), func(c *cfgCase) {
+			c.conf.Network, c.own, c.conf.Router, c.conf.Dns = nb.net, nb.own, "", nil
+		})
+		add("net-size-"+nb.net+"-own-"+nb.own.String()+"-range", func(c *cfgCase) {
+			c.conf.Network, c.own, c.conf.Router, c.conf.Dns = nb.net, nb.own, "", nil
+			c.conf.DynamicRange = "192.168.1.2-192.168.1.3"
+		})
+	}
 	add("F5c-lease-2^32s", func(c *cfgCase) { c.conf.LeaseDuration = "1193046h28m16s" })
 	add("F5c-lease-2^32-1s-ok", func(c *cfgCase) { c.conf.LeaseDuration = "1193046h28m15s" })
 	add("F5c-client-dns-64", func(c *cfgCase) {
